@@ -117,7 +117,11 @@ class SpecCheck:
         raise NotImplementedError
 
     def inputs(self, rng, spec, meta):
-        return classes.input_sets(rng, spec, meta.get("syms", {}), meta.get("extents"))
+        ins = classes.input_sets(rng, spec, meta.get("syms", {}), meta.get("extents"))
+        for inp in ins:
+            for k, v in (meta.get("extra_params") or {}).items():
+                inp["params"].setdefault(k, v)
+        return ins
 
     def unit_args(self, spec, meta, inputs):
         return {"spec": spec, "yaml": specmod.to_yaml(spec), "mode": meta.get("mode", "plain"), "inputs": inputs}
@@ -162,6 +166,12 @@ class SpecCheck:
     def attribute(self, spec, meta, inputs, results, violation):
         """-> known finding id or None"""
         return None
+
+    def finding_listed(self, kfid):
+        """Is every part of this finding id recorded in known_findings.txt for this property?"""
+        known, _ = load_known()
+        parts = kfid.replace("C04-K1+K2", "C04-K1 C04-K2").split()
+        return all(any(e.get("id") == p_ and self.pid in e["properties"] for e in known) for p_ in parts)
 
     def shrink_candidates(self, spec, meta, inputs):
         from gen import shrink
@@ -273,6 +283,8 @@ class SpecCheck:
                             continue
                         for v in vs:
                             kf = self.attribute(spec, meta, inputs, per_seed, v)
+                            if kf and not self.finding_listed(kf):
+                                kf = None     # not a finding recorded for this property: report it
                             if kf:
                                 known_hits[kf] = known_hits.get(kf, 0) + 1
                                 stats.add("attributed_to:" + kf)
@@ -282,17 +294,28 @@ class SpecCheck:
                         break
                 # known-finding witnesses
                 known, fixed = load_known()
+                printed = set()
                 for kfid, what, fn in self.witnesses():
                     listed = [e for e in known if e.get("id") == kfid and self.pid in e["properties"]]
                     still = fn(cluster)
                     stats.add("witness_run")
                     if still and listed:
+                        printed.add(kfid)
                         print("KNOWN-FINDING: property=%s id=%s %s" % (self.pid, kfid, what), flush=True)
                     elif still and not listed:
                         violations.append((None, None, Violation("unlisted_witness_fails", [], {"finding": kfid, "what": what})))
                     else:
                         stats.add("witness_no_longer_fails:" + kfid)
                         print("NOTE: witness of %s no longer fails on this tree" % kfid, flush=True)
+                # findings of another property's witness met by generated units of this check
+                for kfid, n in sorted(known_hits.items()):
+                    for part in kfid.replace("C04-K1+K2", "C04-K1 C04-K2").split():
+                        if part in printed:
+                            continue
+                        e = [e for e in known if e.get("id") == part]
+                        printed.add(part)
+                        print("KNOWN-FINDING: property=%s id=%s %s (met by generated units; attributed by counterfactual "
+                              "re-execution)" % (self.pid, part, e[0]["what"] if e else ""), flush=True)
                 # report violations (minimised, replay-verified)
                 reported = 0
                 seen_classes = set()
@@ -376,8 +399,10 @@ class SpecCheck:
         except Exception:
             return None
         for w in vs:
-            if w.vclass == v.vclass and not self.attribute(spec, meta, inputs, per_seed, w):
-                return w
+            if w.vclass == v.vclass:
+                kf = self.attribute(spec, meta, inputs, per_seed, w)
+                if not (kf and self.finding_listed(kf)):
+                    return w
         return None
 
     def report(self, seed, tier, k, case, v):
@@ -519,6 +544,24 @@ def closed_violations(results):
         if vs:
             break
     return vs
+
+
+AFFINE_CF = [["K1"], ["K2"], ["K1", "K2"]]
+
+
+def attribute_affine(results, v):
+    """Known findings C04-K1/K2 on class-A specs, seen through another property's oracle: a failing output is
+    attributed only if re-executing the same text with exactly that counterfactual rewrite applied (at least
+    one rewritten site) makes the same run pass (DESIGN 3.5)."""
+    if not v.vclass.startswith("output_") or not v.hseeds or "input_set" not in (v.detail or {}):
+        return None
+    run = results[v.hseeds[0]]["runs"][v.detail["input_set"]]
+    cf = run.get("cf") or {}
+    for name in ("K1", "K2", "K1+K2"):
+        c = cf.get(name)
+        if c and c["ok"] and all(n > 0 for n in (c.get("sites") or {}).values()):
+            return "C04-" + name
+    return None
 
 
 def main_for(check_cls):
